@@ -283,3 +283,18 @@ impl Id {
         Id(next)
     }
 }
+
+#[cfg(feature = "verif-hooks")]
+impl Execution {
+    pub(crate) fn verif_threads(&self) -> String {
+        self.threads.verif_dump()
+    }
+
+    pub(crate) fn verif_objects(&self) -> String {
+        self.objects.verif_dump()
+    }
+
+    pub(crate) fn verif_path(&self) -> String {
+        serde_json::to_string(&self.path).unwrap()
+    }
+}
